@@ -57,7 +57,7 @@ func gen(g *mon.Gen) {
 	for fr := 0; fr < 2; fr++ {
 		for _, fc := range []uint8{1, 2, 3, 4, 15, 16} {
 			max := map[uint8]int{1: 2000, 2: 2000, 3: 125, 4: 125, 15: 1968, 16: 123}[fc]
-			for k := 0; k < g.Pick(1, 60); k++ {
+			for k := 0; k < g.Pick(3, 60); k++ {
 				for lo := 1; lo <= max; lo += 250 {
 					g.Emit(&Case{Kind: "legal-qty", FC: fc, Framing: fr, Lo: lo, Hi: min(lo+249, max), Seed: rng.Int63()})
 				}
@@ -67,14 +67,14 @@ func gen(g *mon.Gen) {
 			}
 		}
 		for _, fc := range []uint8{5, 6, 17} {
-			for k := 0; k < g.Pick(2, 200); k++ {
+			for k := 0; k < g.Pick(6, 200); k++ {
 				g.Emit(&Case{Kind: "legal-rand", FC: fc, Framing: fr, Seed: rng.Int63()})
 			}
 		}
 		for lo := 0; lo < 65536; lo += 8192 {
 			g.Emit(&Case{Kind: "fc5-values", FC: 5, Framing: fr, Lo: lo, Hi: lo + 8191, Seed: rng.Int63()})
 		}
-		for k := 0; k < g.Pick(2, 100); k++ {
+		for k := 0; k < g.Pick(6, 100); k++ {
 			g.Emit(&Case{Kind: "fc23", FC: 23, Framing: fr, Seed: rng.Int63(), Lo: 0})
 		}
 		for lo := 0; lo < 65536; lo += 8192 {
